@@ -16,7 +16,7 @@ ASSUME Kind = "conformant" => JsonSerialize(Out, SetToSeq(Conf))
 ASSUME Kind = "faulty" => JsonSerialize(Out, SetToSeq(Faul))
 FUnivN == CandFN \cup RootF
 FSeqN(F) == LET dom == SetToSortSeq(FUnivN, OidLess) IN [i \in DOMAIN dom |-> <<dom[i], F[dom[i]]>>]
-FaulN == { [f |-> FSeqN(F), roots |-> r] : F \in [FUnivN -> CandFN \cup {<<0>>}], r \in RootListsOf(RootF, 2) }
+FaulN == { [f |-> FSeqN(F), roots |-> r] : F \in [FUnivN -> FRangeN \cup {<<0>>}], r \in RootListsOf(RootF, 2) }
 ASSUME Kind = "faulty_nested" => JsonSerialize(Out, SetToSeq(FaulN))
 VARIABLE x
 Init == x = 0
